@@ -150,6 +150,12 @@ def run(ctx):
             guard = [i for i in ifs if any(p is x for x in H.walk(i["then"]) for p in pushes)]
             if len(guard) != 1:
                 return (False, "the item is pushed unconditionally") if not guard and not any(H.kind(x) in ("Match", "Continue") for x in H.walk(lp["body"])) else (None, "the test that guards the push was not recognised")
+            # the callback's result is judged by as_bool alone: a match on its kind in front of it (`Value::Null => false`) makes the
+            # operator form accept results the built-in form rejects
+            special = [H.loc(m_) for m_ in H.walk(lp["body"]) if H.kind(m_) == "Match" and H.path_local(H.strip(m_["scrut"])) in res
+                       and any("values::Value::" in v_ for a_ in m_["arms"] for v_ in H.pat_variants(a_["pat"]))]
+            if special:
+                return False, "the predicate's result is matched on its kind before as_bool (%s): some non-boolean results are accepted here and rejected by the sibling form" % special[0]
             if cond_is_as_bool(guard[0]["cond"], False):
                 return True, "pushes the item under `if as_bool(result)`: True"
             if cond_is_as_bool(guard[0]["cond"], True):
